@@ -4,6 +4,7 @@ import (
 	"context"
 	"fmt"
 	"sort"
+	"strings"
 	"time"
 
 	"github.com/cockroachdb/pebble"
@@ -339,4 +340,110 @@ func (h *dbHarness) checkClosed(what string) {
 		Violation("close-leak", "%s: file locks still held after Close: %v", what, l)
 	}
 	h.count("check.closed", 1)
+}
+
+// ---- file lifetime (C39) ----
+
+func parseFileNum(path string) (num uint64, kind string, ok bool) {
+	base := path
+	if i := strings.LastIndex(path, "/"); i >= 0 {
+		base = path[i+1:]
+	}
+	for _, suf := range []string{".sst", ".blob", ".log"} {
+		if strings.HasSuffix(base, suf) {
+			var n uint64
+			if _, err := fmt.Sscanf(strings.TrimSuffix(base, suf), "%d", &n); err == nil {
+				return n, suf[1:], true
+			}
+		}
+	}
+	return 0, "", false
+}
+
+// onRemove is called by the simulated disk right before a file is removed: a
+// table or blob file referenced by the current version or by the version an
+// open iterator reads from must never be deleted.
+func (h *dbHarness) onRemove(path string) {
+	if h.db == nil || !strings.HasPrefix(path, "db/") {
+		return
+	}
+	num, kind, ok := parseFileNum(path)
+	if !ok {
+		return
+	}
+	if kind == "log" {
+		// a WAL at or above the minimum unflushed log number is still needed
+		// for recovery (the lock-free accessor: the deleter may run under DB.mu)
+		if min := h.db.VerifsimMinUnflushedLogNumRaw(); num >= min {
+			Violation("live-file-deleted", "%s is being deleted although the minimum unflushed log number is %d: it is still needed for recovery", path, min)
+		}
+		h.count("check.remove_wal_not_needed", 1)
+		return
+	}
+	for _, id := range sortedIDs(h.snaps) {
+		if s := h.snaps[id]; s.efos != nil && s.efos.VerifsimPinnedFiles()[num] {
+			Violation("live-file-deleted", "%s is being deleted although the version pinned by an open file-only snapshot (taken after %d groups) references it", path, s.pos)
+		}
+	}
+	if h.db.VerifsimCurrentFiles()[num] {
+		Violation("live-file-deleted", "%s is being deleted although the current version references it", path)
+	}
+	for _, id := range sortedIDs(h.iters) {
+		if h.iters[id].it.VerifsimPinnedFiles()[num] {
+			Violation("live-file-deleted", "%s is being deleted although the version pinned by an open iterator (%s) references it\n%s", path, h.iters[id].what, h.iters[id].it.VerifsimDescribe(h.db))
+		}
+	}
+	h.count("check.remove_not_live", 1)
+}
+
+// checkNoDeadFiles: once no reader is open and deletions have been processed,
+// the directory holds no table or blob file outside the current version, and no
+// more obsolete WALs than the recycler may retain.
+func (h *dbHarness) checkNoDeadFiles(what string) {
+	var lingering []string
+	for wait := 0; wait < 120; wait++ {
+		lingering = lingering[:0]
+		live := h.db.VerifsimCurrentFiles()
+		minLog := h.db.VerifsimMinUnflushedLogNum()
+		oldLogs := 0
+		for _, n := range h.disk.ListNoFault("db") {
+			num, kind, ok := parseFileNum(n)
+			if !ok {
+				continue
+			}
+			switch kind {
+			case "log":
+				if num < minLog {
+					oldLogs++
+				}
+			default:
+				if !live[num] {
+					lingering = append(lingering, n)
+				}
+			}
+		}
+		if max := h.opts.MemTableStopWritesThreshold + 1; oldLogs > max {
+			lingering = append(lingering, fmt.Sprintf("%d WALs older than the minimum unflushed log %d (the recycler may keep %d)", oldLogs, minLog, max))
+		}
+		if len(lingering) == 0 {
+			h.count("check.no_dead_files", 1)
+			return
+		}
+		if wait == 40 {
+			// Releasing the version held by a file-only snapshot (or by an
+			// iterator over one) puts its files on the obsolete list but does
+			// not start a deletion pass; the next flush or compaction job does.
+			// "Deletions have been processed" therefore includes one job: an
+			// (empty) flush is the state-neutral way to cause one.
+			h.count("probe.lingering_until_next_job", 1)
+			if err := h.db.Flush(); err != nil {
+				h.opErr("flush", err)
+				return
+			}
+		}
+		// deletions are paced and asynchronous: give them (simulated) time
+		simrt.Sleep(5 * time.Second)
+		simrt.Progress()
+	}
+	Violation("dead-file-lingers", "%s: with no reader open and after 10 simulated minutes these obsolete files are still in the directory: %v", what, lingering)
 }
